@@ -178,6 +178,28 @@ NiShape* buildShape(NifFile& nif, const json& s, Ctx& ctx) {
 		}
 	}
 	if (jbool(s, "alpha", false)) nif.AssignAlphaProperty(shape, std::make_unique<NiAlphaProperty>());
+	if (jbool(s, "legacy_texturing", false) && hdr.GetVersion().Stream() <= 34) {
+		// Oblivion / Fallout 3 style texturing: NiTexturingProperty -> NiSourceTexture in the shape's property list, with file
+		// names as exporters leave them (the loader cleans them up)
+		static const char* paths[] = {"Data\\Textures\\effects\\glow.dds", "textures/armor/cuirass.dds", "data\\textures\\a\\textures\\b.dds", "textures\\clean.dds", " textures\\blank.dds ", "C:\\Games\\Data\\Textures\\x.dds"};
+		auto tp = std::make_unique<NiTexturingProperty>();
+		int ntex = 1 + int(r.below(2));
+		for (int k = 0; k < ntex; k++) {
+			auto st = std::make_unique<NiSourceTexture>();
+			st->fileName.get() = paths[r.below(6)];
+			uint32_t sid = hdr.AddBlock(std::move(st));
+			if (k == 0) { tp->hasBaseTex = true; tp->baseTex.sourceRef.index = sid; }
+			else { tp->hasGlowTex = true; tp->glowTex.sourceRef.index = sid; }
+		}
+		uint32_t tid = hdr.AddBlock(std::move(tp));
+		shape->propertyRefs.AddBlockRef(tid);
+		// the same strings are used by another block as well (an unknown block may hide such a use)
+		auto ed = std::make_unique<NiStringExtraData>();
+		ed->name.get() = "TexNote";
+		ed->stringData.get() = paths[r.below(6)];
+		nif.AssignExtraData(shape, std::move(ed));
+		ctx.probe("built_legacy_texturing");
+	}
 	if (jbool(s, "xform", false)) shape->SetTransformToParent(randomXform(r));
 
 	// ---- skin ----
